@@ -71,7 +71,9 @@ theorem skipVarint_le : ∀ (d : Bytes) (i n : Nat), skipVarint d i = .ok n → 
   | b :: r, i, n, h => by
     simp only [skipVarint] at h
     split at h
-    · injection h with h; simp only [List.length_cons]; omega
+    · split at h
+      · simp at h
+      · injection h with h; simp only [List.length_cons]; omega
     · split at h
       · simp at h
       · have := skipVarint_le r (i + 1) n h
@@ -82,7 +84,7 @@ theorem skipVarint_fine : ∀ (d : Bytes) (i : Nat), (skipVarint d i).fine
   | b :: r, i => by
     simp only [skipVarint]
     split
-    · simp [Res.fine]
+    · split <;> simp [Res.fine]
     · split
       · simp [Res.fine]
       · exact skipVarint_fine r (i + 1)
@@ -159,31 +161,74 @@ theorem skip_total (d : Bytes) (wt : WT) :
 
 /-! ### Skip over well-formed fields is exact -/
 
-theorem skipVarint_append (v : Nat) : ∀ (i : Nat) (rest : Bytes), i + (appendVarUint v).length ≤ 10 →
+/-- what still fits after `i` bytes of a 64-bit varint: 7 bits per byte, one bit in the tenth. -/
+theorem varint_bound_step : ∀ i, i ≤ 8 → 2 ^ (64 - 7 * i) = 128 * 2 ^ (64 - 7 * (i + 1)) := by
+  intro i hi
+  have : i = 0 ∨ i = 1 ∨ i = 2 ∨ i = 3 ∨ i = 4 ∨ i = 5 ∨ i = 6 ∨ i = 7 ∨ i = 8 := by omega
+  rcases this with rfl | rfl | rfl | rfl | rfl | rfl | rfl | rfl | rfl <;> decide
+
+theorem skipVarint_append (v : Nat) : ∀ (i : Nat) (rest : Bytes), i ≤ 9 → v < 2 ^ (64 - 7 * i) →
     skipVarint (appendVarUint v ++ rest) i = .ok (i + (appendVarUint v).length) := by
   induction v using Nat.strongRecOn with
   | _ v ih =>
-    intro i rest hi
+    intro i rest hi9 hb
     by_cases h : v < 128
     · have hl := len_append_small v h
       rw [appendVarUint]
       simp only [h, ↓reduceDIte, List.cons_append, List.nil_append, skipVarint]
       have : (v.toUInt8).toNat = v := toUInt8_toNat_lt v (by omega)
-      simp [this, h]
+      have hten : ¬ (i = 9 ∧ v > 1) := by
+        rintro ⟨rfl, hv⟩
+        have : (2 : Nat) ^ (64 - 7 * 9) = 2 := by decide
+        omega
+      simp [this, h, hten]
     · have hge : 128 ≤ v := by omega
       have hl := len_append_step v hge
+      have hi8 : i ≤ 8 := by
+        by_cases h9 : i = 9
+        · subst h9
+          have : (2 : Nat) ^ (64 - 7 * 9) = 2 := by decide
+          omega
+        · omega
       rw [appendVarUint]
       simp only [h, ↓reduceDIte, List.cons_append, skipVarint]
       have h1 : ((v % 128 + 128).toUInt8).toNat = v % 128 + 128 := toUInt8_toNat_lt _ (by omega)
       have hn : ¬ (v % 128 + 128 < 128) := by omega
-      have hi9 : ¬ (i ≥ 9) := by have := append_len_pos (v / 128); omega
-      simp only [h1, hn, ↓reduceIte, hi9]
-      rw [ih (v / 128) (by omega) (i + 1) rest (by omega)]
+      have hi9' : ¬ (i ≥ 9) := by omega
+      simp only [h1, hn, ↓reduceIte, hi9']
+      have hstep := varint_bound_step i hi8
+      have hdiv : v / 128 < 2 ^ (64 - 7 * (i + 1)) := by
+        apply Nat.div_lt_of_lt_mul
+        rw [← hstep]; exact hb
+      rw [ih (v / 128) (by omega) (i + 1) rest (by omega) hdiv]
       congr 1; simp only [List.length_cons]; omega
+
+/-- a run of continuation bytes is stepped over. -/
+theorem skipVarint_cont : ∀ (p r : Bytes) (i : Nat), (∀ x ∈ p, 128 ≤ x.toNat) → i + p.length ≤ 9 →
+    skipVarint (p ++ r) i = skipVarint r (i + p.length)
+  | [], r, i, _, _ => by simp
+  | b :: p, r, i, hp, hl => by
+    have hb : ¬ b.toNat < 128 := by have := hp b (by simp); omega
+    have hi : ¬ i ≥ 9 := by simp only [List.length_cons] at hl; omega
+    simp only [List.cons_append, skipVarint, hb, hi, ↓reduceIte]
+    rw [skipVarint_cont p r (i + 1) (fun x hx => hp x (by simp [hx])) (by simp only [List.length_cons] at hl; omega)]
+    simp only [List.length_cons]; congr 1; omega
+
+/-- ten bytes whose last one holds more than the top bit of a 64-bit value are not a varint. -/
+theorem skip_varint_overflow (p : Bytes) (b : UInt8) (rest : Bytes) (hl : p.length = 9)
+    (hp : ∀ x ∈ p, 128 ≤ x.toNat) (h2 : 2 ≤ b.toNat) :
+    skip (p ++ b :: rest) .varint = .err := by
+  simp only [skip]
+  rw [skipVarint_cont p (b :: rest) 0 hp (by omega)]
+  simp only [Nat.zero_add, hl, skipVarint]
+  by_cases hb : b.toNat < 128
+  · have : (9 = 9 ∧ b.toNat > 1) := ⟨rfl, by omega⟩
+    simp [hb, this]
+  · simp [hb]
 
 theorem skip_varint_exact (v : Nat) (hv : v < 2 ^ 64) (rest : Bytes) :
     skip (appendVarUint v ++ rest) .varint = .ok (appendVarUint v).length := by
-  have := skipVarint_append v 0 rest (by have := len_le_ten v hv; omega)
+  have := skipVarint_append v 0 rest (by omega) (by simpa using hv)
   simpa [skip] using this
 
 theorem skip_w64_exact (body rest : Bytes) (h : body.length = 8) :
